@@ -7,7 +7,7 @@ namespace KamalProxy.Driver.Faults
 open KamalProxy Proto KamalProxy.Faults
 
 structure St where
-  setup : Setup := ⟨false, false, 0⟩
+  setup : Setup := { bufResp := false, pages := false, timeout := 0 }
   logReq : List Bytes := []
   logResp : List Bytes := []
 
@@ -17,6 +17,7 @@ def parseFault (m : String) : Option Fault :=
   | ["refuse"] => some .refuse | ["close"] => some .close | ["garbage"] => some .garbage
   | ["afterstatus"] => some .afterStatus | ["afterheaderline"] => some .afterHeaderLine
   | ["midstatus"] => some .midStatus | ["midheaders"] => some .midHeaders | ["silence"] => some .silence
+  | ["reset"] => some .reset | ["resetmidheaders"] => some .resetMidHeaders
   | ["slow", d] => d.toNat?.map .slow
   | ["midbody", a, b] => do pure (.midBody (← a.toNat?) (← b.toNat?))
   | ["chunkpartial"] => some .chunkPartial
@@ -35,7 +36,7 @@ def stepLine (s : St) (line : String) : St × String :=
     | "setup" =>
       match getBool kv "bufresp", getBool kv "pages", getNat kv "timeout", getL kv "logreq", getL kv "logresp" with
       | some b, some p, some t, some lq, some lp =>
-        ({ setup := ⟨b, p, t⟩, logReq := lq.map Rewrite.canonicalKey, logResp := lp.map Rewrite.canonicalKey }, "setup ok")
+        ({ setup := { bufResp := b, pages := p, timeout := t, maxResp := (getNat kv "maxresp").getD 0 }, logReq := lq.map Rewrite.canonicalKey, logResp := lp.map Rewrite.canonicalKey }, "setup ok")
       | _, _, _, _, _ => (s, "bad-op")
     | "drain" => (s, "drain ok took=0")
     -- a request held by a pause whose client gives up and that nobody resumes: when the pause expires the proxy
